@@ -85,6 +85,7 @@ func bastionE2EChild(args []string) error {
 	in := fs.String("in", "", "runs")
 	addr := fs.String("bastion", "", "stub bastion address")
 	seed := fs.Int64("seed", 1, "seed")
+	limit := fs.Float64("limit", 100000, "requests per second the real FeedBastion is configured with")
 	_ = fs.Parse(args)
 	base, _, ws, err := e2eWorlds(*in, *seed)
 	if err != nil {
@@ -127,7 +128,7 @@ func bastionE2EChild(args []string) error {
 	ctx, cancel := context.WithTimeout(context.Background(), 10*time.Minute)
 	defer cancel()
 	ferr := bastion.FeedBastion(ctx, bastion.Config{Addr: *addr, Logs: logs, BastionKey: priv, WitnessVerifier: witV,
-		Limits: bastion.RequestLimits{TotalPerSecond: rate.Limit(100000)}}, witnessAdapterOf(wit))
+		Limits: bastion.RequestLimits{TotalPerSecond: rate.Limit(*limit)}}, witnessAdapterOf(wit))
 	say("FEEDBASTION %v", ferr)
 	return nil
 }
@@ -139,6 +140,7 @@ func bastionE2EMain(args []string) error {
 	dir := fs.String("dir", os.TempDir(), "scratch")
 	seed := fs.Int64("seed", 1, "seed")
 	prod := fs.String("prod", "", "production binary: the witness side is cmd/omniwitness (SQLite file) instead of the exported FeedBastion in a child of this driver")
+	limit := fs.Float64("limit", 100000, "configured rate limit (requests per second) of the witness side; the runs' own limit field is ignored")
 	_ = fs.Parse(args)
 	base, runs, ws, err := e2eWorlds(*in, *seed)
 	if err != nil {
@@ -160,7 +162,7 @@ func bastionE2EMain(args []string) error {
 		db := filepath.Join(*dir, fmt.Sprintf("bastion-e2e-prod-%d-%d.db", *seed, os.Getpid()))
 		defer func() { os.Remove(db); os.Remove(db + "-journal") }()
 		p, err := startProd(prodCfg{Bin: *prod, Dir: *dir, Tag: fmt.Sprintf("e2e-%d-%d", *seed, os.Getpid()), Yaml: prodYaml(ws), WitSKey: base.WitKey.SKey(), DB: db,
-			Bastion: sb.addr(), CAFile: sb.caFile, Rate: 100000})
+			Bastion: sb.addr(), CAFile: sb.caFile, Rate: *limit, RateSet: true})
 		if err != nil {
 			return err
 		}
@@ -168,7 +170,7 @@ func bastionE2EMain(args []string) error {
 		api = p.api
 		alive = p.alive
 	} else {
-		cmd := exec.Command(self, "bastion-e2e-child", "-in", *in, "-bastion", sb.addr(), "-seed", fmt.Sprint(*seed))
+		cmd := exec.Command(self, "bastion-e2e-child", "-in", *in, "-bastion", sb.addr(), "-seed", fmt.Sprint(*seed), "-limit", fmt.Sprint(*limit))
 		cmd.Env = append(os.Environ(), "SSL_CERT_FILE="+sb.caFile, "SSL_CERT_DIR=/nonexistent")
 		stdout, err := cmd.StdoutPipe()
 		if err != nil {
@@ -233,7 +235,7 @@ func bastionE2EMain(args []string) error {
 			sort.Strings(s.logs)
 			return s
 		}
-		ev, err := driveBastion(w, r, w.P.RunTag, "e2e", "id", 100000, bastionFront{post: post, snap: snap})
+		ev, err := driveBastion(w, r, w.P.RunTag, "e2e", "id", *limit, bastionFront{post: post, snap: snap})
 		if err != nil {
 			return err
 		}
